@@ -147,7 +147,10 @@ def model_case(draw):
     w = draw(st.integers(1, 6))
     s = draw(st.integers(1, 6))
     p = draw(gen.chain('int', INNER, 1))
-    layer = draw(st.sampled_from([None, ['group_by', 2], ['group_by', 3], ['roll', 3, 2], ['roll', 2, 3], ['split', 'div', 3], ['split', 'mod', 2]]))
+    # 'gb+roll': interleaved groups over overlapping outer windows -- the parent key indexes of the roll under test are
+    # created out of increasing order
+    layer = draw(st.sampled_from([None, ['group_by', 2], ['group_by', 3], ['roll', 3, 2], ['roll', 2, 3], ['split', 'div', 3], ['split', 'mod', 2],
+                                  'gb+roll32', 'gb+roll41']))
     items = draw(st.lists(st.integers(-8, 8), min_size=draw(st.sampled_from([0, 2, 6, 10])), max_size=24))
     return {'w': w, 's': s, 'p': p, 'layer': layer, 'items': items}
 
@@ -155,7 +158,9 @@ def model_case(draw):
 def check_model(case):
     w, s, p, layer, items = case['w'], case['s'], case['p'], case['layer'], case['items']
     node = ['roll', w, s, p]
-    full = c02.wrap_ast([layer] if layer else [], [node])
+    layers = {'gb+roll32': [['group_by', 2], ['roll', 3, 2]], 'gb+roll41': [['group_by', 2], ['roll', 4, 1]]}.get(layer if isinstance(layer, str) else None,
+                                                                                                              [layer] if layer else [])
+    full = c02.wrap_ast(layers, [node])
     exp, _ = H.model_events(full, items, 'mux')
     r = drive.store(items, A.build_pipeline(full, A.Env()))
     ctx = {'pipeline': full, 'items': items}
@@ -164,7 +169,7 @@ def check_model(case):
     if not cmp.same_seq(r.items, expv, approx=True):
         raise Violation('roll pipeline output differs from the reference model', expected=expv, got=r.items, **ctx)
     nt = len(items) >= w + s and -(-w // s) >= 2
-    return {'nontrivial': nt, 'labels': ['layer:' + (layer[0] if layer else 'none')] + H.labels_of(p)}
+    return {'nontrivial': nt, 'labels': ['layer:' + (layer if isinstance(layer, str) else (layer[0] if layer else 'none'))] + H.labels_of(p)}
 
 
 def subs(tier):
